@@ -35,7 +35,8 @@ CHECKS = {
             "Enum, Option<enum> and nested-bitfield fields are proved with the view discr(v) / inner raw value (1-bit, arbitrary, native 8/16/32/64 widths, arrays, range lists); the conversion functions are inlined real code in these proofs."),
     "C11": ("proof", "4.1, 5 C11", "representation invariant as pre/postcondition of every operation (Kani) + induction lemma (Verus)",
             "For arbitrary-int bases the invariant raw>>N==0 is a requires of every method and an ensures of every constructor/with_/set_/builder step; raw_value() is specified exactly; "
-            "new_with_raw_value(x.raw_value()) has the same state as x (lemma), so every getter agrees."),
+            "new_with_raw_value(x.raw_value()) has the same state as x (lemma), so every getter agrees. Plus a BOUNDED stand-in (not counted as proved): every enumerated single-field declaration on an arbitrary base "
+            "whose field reaches above bit N-1 must be rejected by the real macro."),
     "C12": ("proof", "4.1, 4.4, 5 C12", "Kani write contracts as step hypothesis + lemmas from contracts only (Verus induction over histories)",
             "Every with_/set_ is proved to be a put_spec step; commutation of disjoint writes, aliasing of overlapping fields and same-field overwrite are proved from the contracts alone (writes stubbed by their verified contracts)."),
     "C13": ("proof", "4.1, 5 C13", "modular Kani contracts: builder steps proved against stub_verified(with_x)",
@@ -79,7 +80,7 @@ CHECKS.update({
     "C19": ("proof", "4.1, 5 C19", "Kani proof of Debug::fmt through the real core::fmt ({:?}) + exhaustive native execution stand-in ({:#?})",
             "For debug-enabled corpus structs the bytes written by the real Debug::fmt through the real core::fmt into a fixed sink are proved equal, for ALL raw values, to the text built by an independent formatter "
             "from get_spec values (struct name, fields in declaration order, name: value); loops unwound to the longest possible text with unwinding assertions. {:#?} is NOT proved (CBMC blows up in PadAdapter): "
-            "stand-in = native execution of the real macro output for every raw value of bases <= 16 bits (both formats), labelled bounded in the evidence.",
+            "stand-in = native execution of the real macro output for every raw value of bases <= 16 bits and seeded + boundary raw values above (both formats), labelled bounded in the evidence.",
             "Proof part: structs listed in the evidence (quick: <= 12-bit bases; thorough: all debug corpus structs up to u32), core::fmt is INSIDE the proof. Stand-in part: exhaustive by execution for <= 16-bit bases, sampled above; not counted as proved. Trusted: rustc, Kani, CBMC, spec/dbgspec.rs."),
 })
 NOT_YET = {}
@@ -129,12 +130,12 @@ def main():
              "kind_free_text": "generator helpers (BaseDataSize::new, is_int_size_regular_type, Exhaustive::matches, try_parse_arbitrary_int_type, ranges_have_self_overlap) under contract / bounded harness in an annotated per-run copy of bitbybit/src"},
             {"name": "META", "path": "vlib/meta.py, meta/, spec/spec.rs", "serves_properties": ["C01", "C02", "C03", "C04", "C05", "C08", "C11", "C12", "C13", "C17"],
              "kind_free_text": "Verus: adequacy of spec.rs (the real file, clauses in //@ comments) against the per-bit model; history / frame / invariant / builder-chain lemmas over the contracts"},
-            {"name": "ACC/INV/CONST/DBG", "path": "vlib/acc.py, vlib/inv.py, vlib/constck.py, vlib/dbgck.py, vlib/standins.py", "serves_properties": ["C09", "C10", "C14", "C15", "C17", "C19"],
+            {"name": "ACC/INV/CONST/DBG", "path": "vlib/acc.py, vlib/inv.py, vlib/constck.py, vlib/dbgck.py, vlib/standins.py", "serves_properties": ["C09", "C10", "C11", "C14", "C15", "C17", "C19"],
              "kind_free_text": "bounded stand-ins decided by the real rustc + real macro on enumerated programs (accept/reject, API inventory, const evaluation, native Debug enumeration); labelled bounded in every evidence file"},
         ],
         "checks": checks,
         "not_applicable": na,
-        "notes": "See DESIGN.md. ./check <ID> [--tier quick|thorough]; VERIF_SEED seeds only the random layouts of the thorough corpus.",
+        "notes": "See DESIGN.md. ./check <ID> [--tier quick|thorough]; VERIF_SEED seeds only the random layouts (10 quick / 40 thorough) and the sampled inputs of the stand-ins.",
     }
     m.update(extra)
     json.dump(m, open(os.path.join(HERE, "MANIFEST.json"), "w"), indent=1)
